@@ -102,4 +102,3 @@ macro_rules! harness {
 harness!(c12_q_channel_push_2, 4, push_case::<2, false>());
 harness!(c12_w_channel_push_2, 4, push_case::<2, true>());
 harness!(c12_q_channel_clear_1, 4, clear_case::<1>());
-harness!(c12_q_channel_clear_2, 4, clear_case::<2>());
